@@ -17,12 +17,14 @@ def run(ck: Check, spec=None, keys=KEYS, what="connection LTS != implementation 
     dist = {"scenarios": len(scen), "steps": 0, "closed_at_end": 0, "connected_reached": 0, "events": {}}
     for (login, ops, tag), (lines, obs, info) in zip(scen, results):
         dist["steps"] += len(lines)
+        if len(obs) < 2:
+            continue
         dist["closed_at_end"] += "st=closed" in obs[-1]
         dist["connected_reached"] += any("st=connected" in o for o in obs)
         for l in lines[1:]:
             k = l.split(" ")[1] if l.startswith("cn.ev") else "nop"
             dist["events"][k] = dist["events"].get(k, 0) + 1
-        r = (spec or default_spec)(obs, lines, info)
+        r = (spec or default_spec)(obs, lines, info) if len(obs) > 1 else None
         if r:
             key, idx = r
             ck.violation(f"{pid.lower()}:{key}", f"{pid} violated on the implementation: {key} at step {idx} ({lines[idx]})",
